@@ -405,6 +405,12 @@ func oracles(r *h.Run, p Program, ci int, s step, strict bool) (stop bool) {
 			r.Note("dump failed: " + s.dumpErr[i].Error())
 			return true
 		}
+		// WriteFile: after a successful write the file holds exactly the bytes written
+		if c.Op == "write" && s.res[i].Err == "" && !s.res[i].Hung && c.FaultAt == 0 && c.CancelAt == 0 && !unconstrained(c, s.before[i]) {
+			if e, ok := s.after[i].Lookup(parseArg(c.P).path()); !ok || e.Dir || e.Data != c.Data {
+				r.Fail("write-content-differs:"+bn, fmt.Sprintf("%s succeeded on the %s back end but the file holds %q", c, bn, e.Data), replay)
+			}
+		}
 		if v := frameViolation(c, s.before[i], s.after[i]); v != "" && !s.res[i].Hung {
 			sig := "outside-destination:" + shp + ":" + bn
 			if destThroughFile(c, s.before[i]) {
